@@ -65,7 +65,9 @@ func emitAdd(h *harness, out *common.Out, c addCase) {
 }
 
 // crashProbe (not part of the check): how often does `POST /add?hash=sha3-512&progress=true` kill the
-// process?  Each round is a child process that is sent the request 10 times.
+// process?  Each round is a child process that is sent the request 10 times.  (Before fix 6355d34: 9 of 20
+// children died - the handler panicked building a CIDv0 with another hash and the output goroutine touched the
+// torn-down response writer; after it: none.)
 func crashProbe() {
 	self, _ := os.Executable()
 	line := strings.Repeat("add cr=0 au=n mp=ok q=hash:v.sha3-512;progress:v.true md=- rpc=ok\n", 10)
